@@ -105,16 +105,22 @@ Definition set_default (s : sys) (name : N) (st : bstate) : sys := mkSys (s_b s)
 End Sys.
 Arguments sys : clear implicits.
 
-(* bucketType.reset, in both forms the source had (the translator tells which one it has now):
-   refill interval = Period / Count in whole ns, since 7348cd5bb clamped to 1 ns when that is 0
-   and Period >= 0 (before: 0, i.e. an unlimited bucket - F23); tokens taken at creation =
-   TakenTokens, since 4e20ebf0e capped at Count (before: a larger value was refused and left the
-   bucket full - F24) *)
-Definition interval_of (clamp : bool) (s : bstate) : Z :=
+(* The shapes pkg/iratesce had over time; the translator tells which one the source has now
+   (Gen/Params.v), the functions below take the shape as parameters so that the earlier ones stay
+   expressible (the ..._refuted witnesses of Properties/C19.v):
+   clamp - 7348cd5bb: an interval Period/Count of 0 ns with Period >= 0 is 1 ns (before: Inf, F23);
+   neg   - e448004d7: every interval <= 0 is 1 ns, negative periods included (before: Inf, NEGP);
+   cap   - 4e20ebf0e: a new bucket is primed with min(TakenTokens, Count) (before: TakenTokens, F24);
+   full  - ca6594b47: a new limiter starts with tokens = burst (before: 0 and the zero time, F18);
+   sat   - ca6594b47: durationFromTokens returns InfDuration from 2^63 ns on (before: overflow, F18);
+   ceil  - d872ef03d: GetBucketState reports ceil(burst - tokens) (before: truncation, RTRIP). *)
+Definition interval_of (clamp neg : bool) (s : bstate) : Z :=
   let i := Z.quot (bs_period s) (bs_max s) in
-  if clamp && (i =? 0) && (0 <=? bs_period s) then 1 else i.
+  if neg && (i <=? 0) then 1
+  else if clamp && (i =? 0) && (0 <=? bs_period s) then 1 else i.
 Definition primed_of (cap : bool) (s : bstate) : Z :=
   if cap then Z.min (bs_taken s) (bs_max s) else bs_taken s.
+Definition max_u32 : Z := 4294967295.
 
 (* ------------------------------------------------------------------ F: float replica *)
 Definition f_of_Z (z : Z) : float :=
@@ -157,35 +163,57 @@ Definition f_advance (l : flim) (now : Z) : Z * float :=
   let b := f_of_Z (fl_burst l) in
   (last, if PrimFloat.ltb b tok then b else tok).
 
-Definition f_dur_from_tokens (limit tokens : float) : Z :=
-  if PrimFloat.leb limit 0 then maxd else to_int64 (PrimFloat.mul f_1e9 (PrimFloat.div tokens limit)).
+Definition f_dur_from_tokens_gen (sat : bool) (limit tokens : float) : Z :=
+  if PrimFloat.leb limit 0 then maxd
+  else let nanos := PrimFloat.mul f_1e9 (PrimFloat.div tokens limit) in
+       if sat && PrimFloat.leb (f_of_Z maxd) nanos then maxd else to_int64 nanos.
+Definition f_dur_from_tokens := f_dur_from_tokens_gen rates_wait_saturates.
 
 (* Limiter.reserveN as called by allowN (maxFutureReserve taken from the source) *)
-Definition f_allow (_ : bool) (l : flim) (now n : Z) : bool * flim :=
+Definition f_allow_gen (sat : bool) (_ : bool) (l : flim) (now n : Z) : bool * flim :=
   if PrimFloat.eqb (fl_limit l) f_inf then (true, l)
   else if PrimFloat.eqb (fl_limit l) 0 then
     if n <=? fl_burst l then (true, mkFL (fl_limit l) (fl_burst l - n) (fl_tokens l) (fl_last l)) else (false, l)
   else
     let '(last, tok0) := f_advance l now in
     let tok := PrimFloat.sub tok0 (f_of_Z n) in
-    let wait := if PrimFloat.ltb tok 0 then f_dur_from_tokens (fl_limit l) (PrimFloat.opp tok) else 0 in
+    let wait := if PrimFloat.ltb tok 0 then f_dur_from_tokens_gen sat (fl_limit l) (PrimFloat.opp tok) else 0 in
     if (n <=? fl_burst l) && (wait <=? rates_max_future_reserve)
     then (true, mkFL (fl_limit l) (fl_burst l) tok now)
     else (false, mkFL (fl_limit l) (fl_burst l) (fl_tokens l) last).
+Definition f_allow := f_allow_gen rates_wait_saturates.
 
 Definition f_every (interval : Z) : float :=
   if interval <=? 0 then f_inf else PrimFloat.div 1 (secs interval).
 
 (* bucketType.reset *)
-Definition f_new (s : bstate) (now : Z) : flim :=
-  let limit := if 0 <? bs_max s then f_every (interval_of rates_sub_ns_interval_clamped s) else 0%float in
-  snd (f_allow false (mkFL limit (bs_max s) 0 0) now (primed_of rates_taken_capped_at_count s)).
+Definition f_new_gen (clamp neg cap full sat : bool) (s : bstate) (now : Z) : flim :=
+  let limit := if 0 <? bs_max s then f_every (interval_of clamp neg s) else 0%float in
+  let tokens := if full then f_of_Z (bs_max s) else 0%float in
+  snd (f_allow_gen sat false (mkFL limit (bs_max s) tokens 0) now (primed_of cap s)).
+Definition f_new := f_new_gen rates_sub_ns_interval_clamped rates_negative_interval_clamped rates_taken_capped_at_count
+                              rates_new_bucket_full rates_wait_saturates.
 
-(* recalcBuketState: uint32(max(0, burst - tokens)) *)
-Definition f_taken (l : flim) (now : Z) : Z :=
+(* math.Ceil of a float as an integer (None: NaN; infinities saturate far outside uint32) *)
+Definition f_ceil (v : float) : option Z :=
+  match Prim2SF v with
+  | S754_nan => None
+  | S754_infinity s => Some (if s then mind else maxd)
+  | _ => let z := to_int64 v in Some (if PrimFloat.ltb (f_of_Z z) v then z + 1 else z)
+  end.
+
+(* recalcBuketState: uint32(max(0, burst - tokens)), since d872ef03d rounded up and capped at MaxUint32 *)
+Definition f_taken_gen (ceil : bool) (l : flim) (now : Z) : Z :=
   let v := PrimFloat.sub (f_of_Z (fl_burst l)) (snd (f_advance l now)) in
-  let v := if PrimFloat.ltb v 0 then 0%float else v in
-  (to_int64 v) mod two32.
+  if ceil then
+    match f_ceil v with
+    | None => 0
+    | Some c => Z.min max_u32 (Z.max 0 c)
+    end
+  else
+    let v := if PrimFloat.ltb v 0 then 0%float else v in
+    (to_int64 v) mod two32.
+Definition f_taken := f_taken_gen rates_taken_rounded_up.
 
 (* ------------------------------------------------------------------ X: exact model with slack *)
 Inductive xkind := XInf | XZero | XNorm.
@@ -212,22 +240,27 @@ Definition x_allow (coin : bool) (l : xlim) (now n : Z) : bool * xlim :=
       else (false, mkXL XNorm (xburst l) (xI l) (xc l) last (xfrac l))
   end.
 
-Definition x_new_gen (clamp cap : bool) (s : bstate) (now : Z) : xlim :=
-  let i := if 0 <? bs_max s then interval_of clamp s else 0 in
+Definition x_new_gen (clamp neg cap full : bool) (s : bstate) (now : Z) : xlim :=
+  let i := if 0 <? bs_max s then interval_of clamp neg s else 0 in
   let k := if 0 <? bs_max s then (if i <=? 0 then XInf else XNorm) else XZero in
-  snd (x_allow false (mkXL k (bs_max s) i 0 0 false) now (primed_of cap s)).
-Definition x_new := x_new_gen rates_sub_ns_interval_clamped rates_taken_capped_at_count.
+  snd (x_allow false (mkXL k (bs_max s) i (if full then bs_max s * i else 0) 0 false) now (primed_of cap s)).
+Definition x_new := x_new_gen rates_sub_ns_interval_clamped rates_negative_interval_clamped rates_taken_capped_at_count
+                              rates_new_bucket_full.
 
-Definition x_taken (l : xlim) (now : Z) : Z :=
+Definition x_taken_gen (ceil : bool) (l : xlim) (now : Z) : Z :=
+  let report (v : Z) := if ceil then Z.min max_u32 v else v mod two32 in
   match xk l with
-  | XInf => if Z.min now (xlast l) <? now then 0 else xburst l mod two32
-  | XZero => xburst l mod two32
-  | XNorm => let '(_, c1, _) := x_avail l now in ((xcap l - c1) / xI l) mod two32
+  | XInf => if Z.min now (xlast l) <? now then 0 else report (xburst l)
+  | XZero => report (xburst l)
+  | XNorm => let '(_, c1, _) := x_avail l now in
+             report (if ceil then (xcap l - c1 + xI l - 1) / xI l else (xcap l - c1) / xI l)
   end.
+Definition x_taken := x_taken_gen rates_taken_rounded_up.
 
 (* single operations requested from one F limiter at one instant *)
-Fixpoint f_takes (l : flim) (t : Z) (m : nat) : list bool :=
-  match m with O => [] | S m' => let '(ok, l') := f_allow false l t 1 in ok :: f_takes l' t m' end.
+Fixpoint f_takes_gen (sat : bool) (l : flim) (t : Z) (m : nat) : list bool :=
+  match m with O => [] | S m' => let '(ok, l') := f_allow_gen sat false l t 1 in ok :: f_takes_gen sat l' t m' end.
+Definition f_takes := f_takes_gen rates_wait_saturates.
 
 Definition fsys := sys flim.
 Definition xsys := sys xlim.
@@ -374,14 +407,9 @@ Definition agrees (t : trace) : bool :=
 Inductive ckind := CZero | CUnl | CNorm (i : Z).
 Definition ckind_of (s : bstate) : ckind :=
   if bs_max s =? 0 then CZero
-  else if bs_period s <? 0 then CNorm 0
   else CNorm (Z.max 1 (Z.quot (bs_period s) (bs_max s))).
-(* CNorm 0: N >= 1 operations per negative period (in practice a period too long for
-   time.Duration that wrapped around).  No window bound can be read off such a period, but "a
-   fresh or reset bucket admits exactly N at once" and "one instant admits at most N" carry no
-   proviso on P: the bucket is judged at single instants only (open finding NEGP: the code makes
-   it unlimited). *)
-(* N >= 1 operations per period P with 0 <= P < N declare more than one operation per ns; the
+(* N >= 1 operations per period P < N (also P = 0 and negative P, which is what a period too long
+   for time.Duration wraps to) declare more than one operation per ns or nothing at all; the
    statement's bound divides by P/N = 0 there.  Such a bucket is judged as the tightest bucket
    that never exceeds the declared rate: interval 1 ns (window bound N + T + 1 <= N + T*N/P + 1),
    exactly N at once when fresh, at most N at one instant.  (The code made it unlimited until
@@ -663,8 +691,10 @@ Definition nonneg_in (i : xin) : Prop := match i with ITake _ _ n => 0 <= n | _ 
 Fixpoint timeline (t0 : Z) (h : list (Z * xin)) (t1 : Z) : Prop :=
   match h with [] => t0 <= t1 | (t, _) :: r => t0 <= t /\ timeline t r t1 end.
 
-(* stated domain: a period of at most 2^62 ns (146 years); beyond it lies finding F18 *)
-Definition capmax : Z := 4611686018427387904.
+(* stated domain: a period of at most MaxInt64 - 2 ns: the Duration saturation then cannot be told
+   from exact time (the two periods above are served correctly by the code since ca6594b47, but
+   the exact model marks a bucket of credit MaxInt64 as noisy) *)
+Definition capmax : Z := 9223372036854775805.
 Definition lim_ok (l : xlim) : Prop := 1 <= xI l /\ 0 <= xburst l /\ -1 <= xc l /\ xcap l <= capmax.
 
 (* credit (ns) the bucket holds at time t >= xlast: what every later decision depends on *)
